@@ -61,12 +61,17 @@ Crashed == /\ ~poison /\ E.ev # "Init" /\ ph = "call" /\ E.out # "ok"
            /\ Mismatch("outcome", "ok", E.out)
            /\ Fail
 
+\* A reply or observation that differs from the specification is reported and validation CONTINUES from the
+\* state the specification prescribes (only a crashed object or an input outside the drivers' precondition ends
+\* the history), so that one defect is seen through every property it affects - a swallowed checkpoint update is
+\* a wrong reply (C10) and, later, a wrong head (C09).
+Chk(ok, what, exp, got) == IF ok THEN TRUE ELSE Mismatch(what, exp, got)
+
 CallProcessBlock ==
     /\ E.ev = "ProcessBlock"
     /\ LET exp == ProcessBlockReply(E.parent, E.root, E.slot) IN
-       IF B(E.ret.ok) = exp
-       THEN DoProcessBlock(E.parent, E.root, E.slot, E.je, E.fe) /\ ToObs /\ UNCHANGED <<poison, nilsink>>
-       ELSE Mismatch("ProcessBlock reply", exp, E.ret.ok) /\ Fail
+       /\ Chk(B(E.ret.ok) = exp, "ProcessBlock reply", exp, E.ret.ok)
+       /\ DoProcessBlock(E.parent, E.root, E.slot, E.je, E.fe) /\ ToObs /\ UNCHANGED <<poison, nilsink>>
 
 CallProcessSlot ==
     /\ E.ev = "ProcessSlot"
@@ -77,16 +82,14 @@ CallProcessSlot ==
 CallProcessAttestation ==
     /\ E.ev = "ProcessAttestation"
     /\ LET exp == AttestationReply(E.root, E.slot) IN
-       IF B(E.ret.ok) = exp
-       THEN DoProcessAttestation(E.v, E.root, E.slot) /\ ToObs /\ UNCHANGED <<poison, nilsink>>
-       ELSE Mismatch("ProcessAttestation reply", exp, E.ret.ok) /\ Fail
+       /\ Chk(B(E.ret.ok) = exp, "ProcessAttestation reply", exp, E.ret.ok)
+       /\ DoProcessAttestation(E.v, E.root, E.slot) /\ ToObs /\ UNCHANGED <<poison, nilsink>>
 
 CallSetPin ==
     /\ E.ev = "SetPin"
     /\ LET exp == SetPinReply(E.root, E.slot) IN
-       IF B(E.ret.ok) = exp
-       THEN DoSetPin(E.root, E.slot) /\ ToObs /\ UNCHANGED <<poison, nilsink>>
-       ELSE Mismatch("SetPin reply", exp, E.ret.ok) /\ Fail
+       /\ Chk(B(E.ret.ok) = exp, "SetPin reply", exp, E.ret.ok)
+       /\ DoSetPin(E.root, E.slot) /\ ToObs /\ UNCHANGED <<poison, nilsink>>
 
 CallUpdateJustified ==
     /\ E.ev = "UpdateJustified"
@@ -94,34 +97,31 @@ CallUpdateJustified ==
            f == CPRec(E.f)
            cls == UJClass(Ctx, E.trigger, j, f, B(E.balerr)) IN
        CASE cls = "noop" ->
-              IF E.ret.ok = 1 /\ E.pruned = <<>>
-              THEN ToObs /\ UNCHANGED <<nodes, votes, bal, just, fin, pin, detached, poison, nilsink>>
-              ELSE Mismatch("UpdateJustified older/equal must be a no-op", <<1, <<>>>>, <<E.ret.ok, E.pruned>>) /\ Fail
+              /\ Chk(E.ret.ok = 1 /\ E.pruned = <<>>, "UpdateJustified older/equal must be a no-op", <<1, <<>>>>, <<E.ret.ok, E.pruned>>)
+              /\ ToObs /\ UNCHANGED <<nodes, votes, bal, just, fin, pin, detached, poison, nilsink>>
          [] cls = "refused" ->
-              IF E.ret.ok = 0 /\ E.pruned = <<>>
-              THEN ToObs /\ UNCHANGED <<nodes, votes, bal, just, fin, pin, detached, poison, nilsink>>
-              ELSE Mismatch("UpdateJustified must refuse", <<0, <<>>>>, <<E.ret.ok, E.pruned>>) /\ Fail
+              /\ Chk(E.ret.ok = 0 /\ E.pruned = <<>>, "UpdateJustified must refuse", <<0, <<>>>>, <<E.ret.ok, E.pruned>>)
+              /\ ToObs /\ UNCHANGED <<nodes, votes, bal, just, fin, pin, detached, poison, nilsink>>
          [] OTHER ->
-              IF fin = f /\ ~(E.ret.ok = 1 /\ E.pruned = <<>>)
-              THEN Mismatch("UpdateJustified accepted update", <<1, <<>>>>, <<E.ret.ok, E.pruned>>) /\ Fail
-              ELSE /\ just' = j /\ fin' = f /\ bal' = E.bal
-                   /\ pin' = IF fin # f THEN <<>> ELSE pin
-                   /\ UNCHANGED <<nodes, votes, detached, poison, nilsink>>
-                   /\ IF fin # f THEN l' = l /\ ph' = "prune" ELSE ToObs
+              /\ Chk(fin # f \/ (E.ret.ok = 1 /\ E.pruned = <<>>), "UpdateJustified accepted update", <<1, <<>>>>, <<E.ret.ok, E.pruned>>)
+              /\ just' = j /\ fin' = f /\ bal' = E.bal
+              /\ pin' = IF fin # f THEN <<>> ELSE pin
+              /\ UNCHANGED <<nodes, votes, detached, poison, nilsink>>
+              /\ IF fin # f THEN l' = l /\ ph' = "prune" ELSE ToObs
 
 \* evaluated in the updated state: fin is the new finalized checkpoint
 ReportOK(P, canon, k) ==
     LET rep == E.pruned
         \* canonical = on the transition path to the new finalized node
         expSet == {<<p[1], p[2], IF p \in canon THEN 1 ELSE 0>> : p \in P}
-        repKeys(n) == {<<rep[i][1], rep[i][2]>> : i \in 1..n}
     IN IF nilsink THEN rep = <<>> /\ E.ret.ok = 1
        ELSE IF k = 0 \/ k > Cardinality(P)
        THEN E.ret.ok = 1 /\ Len(rep) = Cardinality(P) /\ ToSet(rep) = expSet
        ELSE E.ret.ok = 0 /\ Len(rep) = k /\ ToSet(rep) \subseteq expSet /\ Cardinality(ToSet(rep)) = k
+\* what the call removed: everything, or (sink failing at call k) the nodes reported before the failing call
 Removed(P, k) ==
     IF nilsink \/ k = 0 \/ k > Cardinality(P) THEN P
-    ELSE {<<E.pruned[i][1], E.pruned[i][2]>> : i \in 1..(k - 1)}
+    ELSE {<<E.pruned[i][1], E.pruned[i][2]>> : i \in 1..(IF Len(E.pruned) >= k THEN k - 1 ELSE Len(E.pruned))} \cap P
 
 \* the node set observed right after the call is what remains when S is dropped
 NodesAfter(S) == ToSet(E.obs.nodes) = Keys \ S
@@ -134,29 +134,25 @@ PhasePrune ==
            P2 == ToPruneByOrder(fin)
            canon == IF Has(a) THEN CanonicalPruned(c, fin) ELSE {}
            k == E.sinkfail
+           exact == ReportOK(P, canon, k) /\ NodesAfter(Removed(P, k))
+           useDev == ~exact /\ "fc-prune-order" \in KnownDeviations /\ P2 # P
+                     /\ ReportOK(P2, canon, k) /\ NodesAfter(Removed(P2, k))
+           R == IF useDev THEN Removed(P2, k) ELSE Removed(P, k)
        IN
-       IF P = {} /\ (P2 = {} \/ "fc-prune-order" \notin KnownDeviations)
-       THEN IF E.ret.ok = 1 /\ E.pruned = <<>>
-            THEN ToObs /\ UNCHANGED <<nodes, votes, bal, just, fin, pin, detached, poison, nilsink>>
-            ELSE Mismatch("nothing to prune", <<1, <<>>>>, <<E.ret.ok, E.pruned>>) /\ Fail
-       ELSE IF ReportOK(P, canon, k) /\ NodesAfter(Removed(P, k))
-       THEN /\ nodes' = Remove(Removed(P, k))
-            /\ detached' = (detached \ Removed(P, k)) \cup DetachedBy(Removed(P, k), Removed(P, k) = P, fin.root)
-            /\ ToObs /\ UNCHANGED <<votes, bal, just, fin, pin, poison, nilsink>>
-       ELSE IF "fc-prune-order" \in KnownDeviations /\ P2 # P /\ ReportOK(P2, canon, k) /\ NodesAfter(Removed(P2, k))
-       THEN /\ Deviation("fc-prune-order")
-            /\ nodes' = Remove(Removed(P2, k))
-            /\ detached' = (detached \ Removed(P2, k)) \cup DetachedBy(Removed(P2, k), Removed(P2, k) = P2, fin.root)
-            /\ ToObs /\ UNCHANGED <<votes, bal, just, fin, pin, poison, nilsink>>
-       ELSE Mismatch("prune report", <<P, canon>>, <<E.ret.ok, E.pruned, E.obs.nodes>>) /\ Fail
+       /\ IF useDev THEN Deviation("fc-prune-order")
+          ELSE IF P = {} THEN Chk(E.ret.ok = 1 /\ E.pruned = <<>>, "nothing to prune", <<1, <<>>>>, <<E.ret.ok, E.pruned>>)
+          ELSE Chk(exact, "prune report", <<P, canon>>, <<E.ret.ok, E.pruned, E.obs.nodes>>)
+       /\ nodes' = Remove(R)
+       /\ detached' = (detached \ R) \cup DetachedBy(R, R = (IF useDev THEN P2 ELSE P), fin.root)
+       /\ ToObs /\ UNCHANGED <<votes, bal, just, fin, pin, poison, nilsink>>
 
-QueryOK(c) ==
+QueryOK(c, lg) ==
     LET r == E.ret
         gotRef == <<B(r.ok), <<r.root, r.slot>>>>
-    IN CASE E.q = "Head" -> gotRef = HeadOf(c)
-         [] E.q = "FindHead" -> gotRef = FindHeadOf(c, <<E.anchor, E.slot>>)
+    IN CASE E.q = "Head" -> gotRef = HeadOf(c, lg)
+         [] E.q = "FindHead" -> gotRef = FindHeadOf(c, <<E.anchor, E.slot>>, lg)
          [] E.q = "CanonicalChain" ->
-              LET exp == CanonChainOf(c, <<E.anchor, E.slot>>) IN
+              LET exp == CanonChainOf(c, <<E.anchor, E.slot>>, lg) IN
               /\ B(r.ok) = exp[1]
               /\ exp[1] => /\ Len(r.chain) = Len(exp[2])
                            /\ \A i \in DOMAIN r.chain :
@@ -171,31 +167,34 @@ QueryOK(c) ==
          [] E.q = "Search" ->
               IF E.usepar = 0 /\ E.useslot = 0
               THEN /\ Len(r.canon) = Cardinality(ToSet(r.canon)) /\ Len(r.non) = Cardinality(ToSet(r.non))
-                   /\ HeadSearchOK(c, <<E.anchor, E.slot>>, B(r.ok), ToSet(r.canon), ToSet(r.non))
-              ELSE LET exp == SearchOf(c, <<E.anchor, E.slot>>, B(E.usepar), E.parent, B(E.useslot), E.fe) IN
+                   /\ HeadSearchOK(c, <<E.anchor, E.slot>>, B(r.ok), ToSet(r.canon), ToSet(r.non), lg)
+              ELSE LET exp == SearchOf(c, <<E.anchor, E.slot>>, B(E.usepar), E.parent, B(E.useslot), E.fe, lg) IN
                    /\ B(r.ok) = exp[1]
                    /\ exp[1] => ToSet(r.canon) = exp[2] /\ ToSet(r.non) = exp[3]
                                 /\ Len(r.canon) = Cardinality(exp[2]) /\ Len(r.non) = Cardinality(exp[3])
          [] OTHER -> FALSE
 
 QueryExpected(c) ==
-    CASE E.q = "Head" -> HeadOf(c)
-      [] E.q = "FindHead" -> FindHeadOf(c, <<E.anchor, E.slot>>)
-      [] E.q = "CanonicalChain" -> CanonChainOf(c, <<E.anchor, E.slot>>)
+    CASE E.q = "Head" -> HeadOf(c, FALSE)
+      [] E.q = "FindHead" -> FindHeadOf(c, <<E.anchor, E.slot>>, FALSE)
+      [] E.q = "CanonicalChain" -> CanonChainOf(c, <<E.anchor, E.slot>>, FALSE)
       [] E.q = "InSubtree" -> InSubtreeOf(c, E.anchor, E.root)
       [] E.q = "ClosestToSlot" -> ClosestOf(E.anchor, E.slot)
       [] E.q = "CanonAtSlot" -> CanonAtAllowed(c, E.anchor, E.slot, B(E.withblock))
       [] E.q = "GetSlot" -> GetSlotOf(E.root)
       [] E.q = "Search" -> IF E.usepar = 0 /\ E.useslot = 0 THEN "head search (loose)"
-                           ELSE SearchOf(c, <<E.anchor, E.slot>>, B(E.usepar), E.parent, B(E.useslot), E.fe)
+                           ELSE SearchOf(c, <<E.anchor, E.slot>>, B(E.usepar), E.parent, B(E.useslot), E.fe, FALSE)
       [] OTHER -> "?"
+
+GapDev == "fc-gap-start" \in KnownDeviations
 
 CallQuery ==
     /\ E.ev = "Query"
     /\ LET c == Ctx IN
-       IF QueryOK(c)
-       THEN Advance /\ UNCHANGED <<nodes, votes, bal, just, fin, pin, detached, poison, nilsink>>
-       ELSE Mismatch(E.q, QueryExpected(c), E.ret) /\ Fail
+       /\ IF QueryOK(c, FALSE) THEN TRUE
+          ELSE IF GapDev /\ QueryOK(c, TRUE) THEN Deviation("fc-gap-start")
+          ELSE Mismatch(E.q, QueryExpected(c), E.ret)
+       /\ Advance /\ UNCHANGED <<nodes, votes, bal, just, fin, pin, detached, poison, nilsink>>
 
 PhaseCall == /\ ph = "call" /\ ~poison /\ E.ev # "Init" /\ E.out = "ok"
              /\ \/ CallProcessBlock \/ CallProcessSlot \/ CallProcessAttestation
@@ -207,7 +206,9 @@ PhaseObs ==
            okNodes == ToSet(o.nodes) = Keys /\ Len(o.nodes) = Cardinality(Keys)
            okCps == o.just = <<just.epoch, just.root>> /\ o.fin = <<fin.epoch, fin.root>> /\ o.pin = pin
            c == Ctx
-           okHead == o.hashead = 0 \/ <<B(o.head[1]), <<o.head[2], o.head[3]>>>> = HeadOf(c)
+           gotHead == <<B(o.head[1]), <<o.head[2], o.head[3]>>>>
+           okHead == o.hashead = 0 \/ gotHead = HeadOf(c, FALSE)
+           devHead == ~okHead /\ GapDev /\ gotHead = HeadOf(c, TRUE)
            \* internal node table (verif hook), logged when Head() succeeded: the weight of every node that has a
            \* fork-choice parent, and every best-child / best-descendant link, as the specification defines them
            ExpRow(i) == LET ch == {k \in c.kids[i] : c.leads[k]}
@@ -217,14 +218,11 @@ PhaseObs ==
                         IN <<nodes[i].root, nodes[i].slot, IF c.fpar[i] # 0 THEN c.w[i] ELSE 0, bc[1], bc[2], bd[1], bd[2]>>
            GotRow(r) == <<r[1], r[2], IF r[8] = 1 THEN r[3] ELSE 0, r[4], r[5], r[6], r[7]>>
            okTable == o.table = <<>> \/ (Len(o.table) = N /\ \A i \in Idx : GotRow(o.table[i]) = ExpRow(i))
-       IN IF okNodes /\ okCps /\ okHead /\ ~okTable
-          THEN Mismatch("node table after Head", [i \in Idx |-> ExpRow(i)], o.table) /\ Fail
-          ELSE IF okNodes /\ okCps /\ okHead
-          THEN Advance /\ UNCHANGED <<nodes, votes, bal, just, fin, pin, detached, poison, nilsink>>
-          ELSE /\ IF ~okNodes THEN Mismatch("nodes after call", Keys, o.nodes)
-                  ELSE IF ~okCps THEN Mismatch("checkpoints after call", <<just, fin, pin>>, <<o.just, o.fin, o.pin>>)
-                  ELSE Mismatch("head after call", HeadOf(c), o.head)
-               /\ Fail
+       IN /\ Chk(okNodes, "nodes after call", Keys, o.nodes)
+          /\ Chk(okCps, "checkpoints after call", <<just, fin, pin>>, <<o.just, o.fin, o.pin>>)
+          /\ IF devHead THEN Deviation("fc-gap-start") ELSE Chk(okHead, "head after call", HeadOf(c, FALSE), o.head)
+          /\ Chk(~(okHead \/ devHead) \/ okTable, "node table after Head", [i \in Idx |-> ExpRow(i)], o.table)
+          /\ Advance /\ UNCHANGED <<nodes, votes, bal, just, fin, pin, detached, poison, nilsink>>
 
 TraceNext ==
     /\ l <= Len(Trace)
